@@ -207,6 +207,10 @@ def make_general_verifier() -> Verifier:
             if device_services is None:
                 continue
 
+            # A single service may be written without the brackets
+            if not isinstance(device_services, list):
+                device_services = [device_services]
+
             # Check if all services referenced by device exist in fcp
             for service in device_services:
                 if service not in fcp_services:
